@@ -131,6 +131,8 @@ type Options struct {
 	MaxSteps    int    // step horizon
 	TimeHorizon int64  // virtual ns after which the clock is not advanced any more
 	Trace       bool   // record the operation trace with source positions
+	LazyStart   bool   // a new goroutine starts only when scheduled (its start is a visible step): explores
+	                   // delayed goroutine starts, e.g. a closure reading a loop variable the parent reassigns
 	Jitter      bool   // enumerate math/rand.Float64 answers (back-off jitter)
 }
 
@@ -305,6 +307,7 @@ func (w *World) launch(g *G, f func()) {
 			return
 		}
 		g.started = true
+		g.pending = nil
 		f()
 	}()
 }
@@ -341,6 +344,10 @@ func Go(f func()) {
 		g.sitePC = pcs[0]
 	}
 	w.launch(g, f)
+	if w.opts.LazyStart {
+		g.pending = &op{kind: opNop, name: "goroutine-start", eff: func() { g.hash = mix(g.hash, 0x57a47) }}
+		return
+	}
 	w.resumed = append(w.resumed, g)
 }
 
@@ -349,9 +356,23 @@ func itoa(i int) string { return strconv.Itoa(i) }
 func (g *G) site() string {
 	if g.Site == "" && g.sitePC != 0 {
 		f, _ := runtime.CallersFrames([]uintptr{g.sitePC}).Next()
-		g.Site = shortFile(f.File) + ":" + itoa(f.Line)
+		g.Site = origPos(f.File, f.Line)
 	}
 	return g.Site
+}
+
+// LineMap translates positions in rewritten files back to the original sources (set by vcheck).
+var LineMap map[string]map[int]string
+
+func origPos(file string, line int) string {
+	if m, ok := LineMap[file]; ok {
+		if p, ok := m[line]; ok {
+			if k := strings.LastIndex(p, ":"); k > 0 {
+				return shortFile(p[:k]) + p[k:]
+			}
+		}
+	}
+	return shortFile(file) + ":" + itoa(line)
 }
 
 func shortFile(f string) string {
@@ -392,7 +413,7 @@ func callerSite() string {
 	for {
 		f, more := frames.Next()
 		if !strings.Contains(f.File, "/engine/vs/") && f.File != "" {
-			return shortFile(f.File) + ":" + itoa(f.Line)
+			return origPos(f.File, f.Line)
 		}
 		if !more {
 			break
